@@ -277,7 +277,7 @@ var specs = map[string]Spec{
 		Rule:      "cases = role x embedding x peer credential x verification x own certificate; distinct = rows; all non-trivial",
 		Exhaustive: "the full cross product of 11 peer credentials x 2 roles x 2 embeddings x verification on/off x own certificate yes/no",
 		Assumptions: []string{"loopback sockets, real time; a watchdog expiry is inconclusive, never a violation"},
-		QuickFloors: map[string]int64{"handshakes": 300, "admitted": 60, "refused": 60},
+		QuickFloors: map[string]int64{"handshakes": 150, "admitted": 60, "refused": 60},
 		MaxSamples:  3,
 	},
 	"C10": {
@@ -308,6 +308,20 @@ var specs = map[string]Spec{
 		Exhaustive: "all delivery permutations of the listed claim families",
 		Assumptions: []string{"announcements are delivered at least once to every other live instance (memberlist reliable send)", "registration times are distinct (2 µs apart)"},
 		QuickFloors: map[string]int64{"scenarios": 2000, "routing_probes": 30},
+		MaxSamples:  2,
+	},
+	"C15": {
+		Engine: "wire", Run: "^TestACLWire$", Race: false,
+		QuickShards: 8, ThoroughShards: 16, QuickWatchdog: 10 * time.Minute, ThoroughWatchdog: 60 * time.Minute,
+		Level:     "exploration",
+		LevelText: "A real ClusterConnection is assembled on loopback (TCP inbound server, and mux-server inbound reached over a real yamux session) between two generic fake clusters that accept and record every method of both services. Every method of WorkflowService and AdminService from the service descriptors (154, the streaming one opened as a stream) is called on the remote-facing server, once without and once with the translation-bypass header, workflow methods first and admin methods first (the same server instance serves the whole sequence), under allow-lists {policy with empty lists, all, singletons incl. the two names that exist in both services, random subsets} and under no policy. Oracle: a non-listed admin method and RegisterNamespace/DeprecateNamespace under any policy are answered PermissionDenied and the fake local cluster recorded no call; every other method is forwarded exactly once (or is Unimplemented by the proxy and not forwarded); without a policy nothing is denied; the local-facing server is unaffected.",
+		LevelNote: "Real sockets and real time: a transport error or deadline is inconclusive, never a violation. Requests are empty messages (namespace contents are C16's business).",
+		Technique: "runtime monitor: exhaustive method enumeration against the assembled proxy with a recording fake cluster (call log + status code oracle)",
+		DesignRef: "DESIGN.md §4 C15",
+		Rule:      "cases = (policy/allow-list, transport, call order); each case calls all 154 methods twice (with/without bypass header); distinct = cases",
+		Exhaustive: "every method of both services per case",
+		Assumptions: []string{"generic fake cluster built on grpc.UnknownServiceHandler with the service descriptors from the registry"},
+		QuickFloors: map[string]int64{"rpcs": 3000, "denied": 500, "forwarded": 1000},
 		MaxSamples:  2,
 	},
 	"C05": {
